@@ -703,7 +703,7 @@ func (c *Ctx) c06Case(s, s2 *SuiteStat, g *Gen, k *saKeys, lsa *longSA, role mes
 
 func (c *Ctx) c04Unprotect(g *Gen) {
 	s := c.suite("unprotect-arbitrary", "oracle",
-		"DecodeDecrypt on malformed datagrams with any key set (9 suites, both roles, header parsed from the same bytes or not supplied, and nil keys), SK bodies of every length 0..80, consistent chains in which the SK payload (genuine, short or random body) stands behind and/or in front of other payloads (unsupported ones that the walker skips, Nonce, Vendor ID), and IKECrypto.Decrypt on every ciphertext length 0..96 x all 256 recovered pad-length octets; non-trivial = input >= 4 octets")
+		"DecodeDecrypt on malformed datagrams with any key set (9 suites, both roles, header parsed from the same bytes or not supplied, and nil keys), SK bodies of every length 0..80, consistent chains in which the SK payload (genuine, short or random body) stands behind and/or in front of other payloads (unsupported ones that the walker skips, Nonce, Vendor ID), SK bodies 1..4 octets shorter than the checksum whose datagram tail is nevertheless the correct truncated HMAC over what precedes it (found by a Message ID search), and IKECrypto.Decrypt on every ciphertext length 0..96 x all 256 recovered pad-length octets; non-trivial = input >= 4 octets")
 	idx := 0
 	var corr []corrCase
 	for _, st := range allSuites() {
@@ -724,6 +724,11 @@ func (c *Ctx) c04Unprotect(g *Gen) {
 				in[27] = byte(len(in))
 			case 2: // a well-formed chain in which the SK payload is NOT the first payload (or is followed by others)
 				in = g.displacedSK(k, !role)
+				if i%25 == 2 { // SK body shorter than the checksum, the datagram's tail a correct HMAC over what precedes it
+					if sr := selfRefShortSK(g, k, !role, refIntegOutLen[k.st.i]-1-(i/25)%4); sr != nil {
+						in = sr
+					}
+				}
 			default:
 				p, _ := protect(newSA(k), buildMsg(g.protMsg()), !role, g.keyBytesRandom(32), -1)
 				if p.kind != "ok" {
